@@ -502,6 +502,13 @@ int main(int argc, char** argv)
             }
             else B = random_root(int(i));
             if (sel == 2) rec.count("roots:sparse-material-mate-in-one");
+            // the 50-move count must not hide a mate: clocks right at and beyond the 50-move mark (play is legal up to 150)
+            if (sel <= 2 && rng.below(3) == 0)
+            {
+                static const int CLK[] = {98, 99, 100, 101, 120, 149};
+                B.halfmove = CLK[rng.below(6)];
+                if (!orc::mating_moves_in_one(B).empty()) rec.count("roots:mate-in-one-with-clock>=98");
+            }
         }
         else if (PROP == "C09" && i % 4 == 1)
         {
